@@ -1112,7 +1112,9 @@ func c13Spawn(part string, from, to, batch int, seed int64, tier string, stall t
 		close(lines)
 	}()
 	done := false
-	timer := time.NewTimer(stall)
+	// building the part (thorough tier: over a million inputs, thousands of authenticated payloads) takes its time: the
+	// watchdog for a single case starts with the first line the worker prints
+	timer := time.NewTimer(15 * time.Minute)
 	for !done {
 		select {
 		case l, ok := <-lines:
